@@ -3,8 +3,8 @@
 
    The world outside is a finite graph given by oracles:
      scan : uri -> scan_out       what scanner.scan(uri, timeout=...) does
-     get  : uri -> get_out        what requests_session.get(uri, ...) does, the body being
-                                  summarised by what playlists.parse returns for it
+     get  : uri -> get_out        what requests_session.get(uri, ...) does: the chunk timing
+                                  of the body and what playlists.parse returns for it
      join : uri -> str -> option uri    urllib.parse.urljoin (None = ValueError)
      clock : nat -> Z             the n-th reading of time.time()
    The loop is bounded by explicit fuel; running out of fuel is the outcome OutOfFuel, so
@@ -14,7 +14,7 @@
    unwrapping without a stream); fx = false: pinned code (ValueError escapes). *)
 From Coq Require Import ZArith List Bool.
 From Common Require Import Res Str.
-From Untrusted Require Import Base.
+From Untrusted Require Import Base Download.
 Import ListNotations.
 Open Scope Z_scope.
 
@@ -28,13 +28,16 @@ Inductive get_out : Type :=
 | GetTimeout                                  (* requests.exceptions.Timeout *)
 | GetInvalidSchema                            (* requests.exceptions.InvalidSchema *)
 | GetRequestException                         (* any other RequestException *)
-| GetResponse (ok : bool) (slow : bool) (uris : list str).
-  (* slow: iter_content outlives the download deadline; uris = playlists.parse(body) *)
+| GetResponse (ok : bool) (durs : list Z) (uris : list str).
+  (* durs: how long each chunk of iter_content takes to arrive (clock units * 1000 are
+     compared with the timeout, see Download.v); uris = playlists.parse(body) *)
 
-(* http.download: bytes of an ok, timely response, else None; then playlists.parse *)
-Definition download (g : get_out) : option (list str) :=
+(* http.download(session, uri, timeout = dt / 1000): the body of an ok response whose
+   chunk loop (Download.chunks) was not cut off by the deadline, else None; then
+   playlists.parse *)
+Definition download (dt : Z) (g : get_out) : option (list str) :=
   match g with
-  | GetResponse true false uris => Some uris
+  | GetResponse true durs uris => if body_slow durs dt then None else Some uris
   | _ => None
   end.
 
@@ -102,7 +105,7 @@ Section Unwrap.
                 if dt <? 0 then (NoStream TimedOutDownload, log1)
                 else
                   let log2 := FDownload u k (k + 2) dt :: log1 in
-                  match download (get u) with
+                  match download dt (get u) with
                   | None => (NoStream DownloadFailed, log2)
                   | Some [] => (Found u false, log2)
                   | Some (first :: _) =>
